@@ -161,6 +161,9 @@ func workloadOf(h *core.History) *workload {
 var keyPool = [][]byte{[]byte("a"), []byte("b"), []byte("c"), []byte("d"), []byte("aa"), {0x00}, {0xff}, []byte("key-e")}
 var valPool = [][]byte{nil, {}, {0x01}, {0x02}, {0x03}, []byte("hello"), {0xff, 0x00}}
 
+// a value beyond 64 KiB (one write in thirty): large records take other paths in storage engines and invite "write-through" shortcuts
+var longCrashValue = bytes.Repeat([]byte{0x5c}, 70000)
+
 func genWorkload(rng *rand.Rand, timer bool) *workload {
 	w := &workload{kind: rng.Intn(2), max: core.Pick(rng, []int{1, 2, 2, 3, 3, 5, 1, 2, 3, 0, -1}), delay: noTimerDelay} // MaxBatchSize <= 0: every write is flushed at once
 	nk := 3 + rng.Intn(3)
@@ -181,7 +184,11 @@ func genWorkload(rng *rand.Rand, timer bool) *workload {
 	write := func() {
 		k := core.Pick(rng, alpha)
 		if rng.Intn(100) < 72 {
-			w.ops = append(w.ops, wop{code: opPut, key: k, val: core.Pick(rng, valPool)})
+			v := core.Pick(rng, valPool)
+			if rng.Intn(30) == 0 {
+				v = longCrashValue
+			}
+			w.ops = append(w.ops, wop{code: opPut, key: k, val: v})
 		} else {
 			w.ops = append(w.ops, wop{code: opRemove, key: k})
 		}
@@ -928,14 +935,21 @@ func (comp) Run(h *core.History, scratch string) *core.Result {
 			}
 			return core.L(t...)
 		}
+		// journal records written / synced by this operation. A record longer than a journal block (32 KiB) reaches the file in several
+		// Write calls: consecutive journal writes not separated by a sync are one record (every one of them is still a crash point above)
 		jw, js := 0, 0
+		inRecord := false
 		for n := rec.boundary[j]; n < rec.boundary[j+1]; n++ {
 			e := rec.events[n]
 			if isJournal(e) && e.kind == evWrite {
-				jw++
+				if !inRecord {
+					jw++
+				}
+				inRecord = true
 			}
 			if isJournal(e) && e.kind == evSync {
 				js++
+				inRecord = false
 			}
 		}
 		res.AddObs(core.Lbl(1, core.N(0)), core.Lbl(3, mapTok(resMap(b.res[tailNone]))), core.Lbl(4, mapTok(resMap(b.res[tailAll]))),
